@@ -178,6 +178,8 @@ type Case struct {
 	Err      *Err   `json:"err,omitempty"`
 	Callback string `json:"callback,omitempty"`
 	Server   string `json:"server"`
+	// Direct: answer through the direct-write wrappers (WriteData / Success / WriteError / WriteCplxError) instead of the handler constructors
+	Direct bool `json:"direct,omitempty"`
 }
 
 func decodeNum(b []byte) (interface{}, error) {
@@ -198,9 +200,26 @@ func runCase(c Case) error {
 	oh.Server = c.Server
 	defer func() { oh.Server = old }()
 	var h http.Handler
-	if c.Success {
+	switch {
+	case c.Success && c.Direct:
+		h = http.HandlerFunc(func(w http.ResponseWriter, r *http.Request) {
+			if v := c.Val.build(); v == nil {
+				oh.Success(nil, w, r)
+			} else {
+				oh.WriteData(nil, w, r, v)
+			}
+		})
+	case c.Success:
 		h = oh.Data(nil, c.Val.build())
-	} else {
+	case c.Direct:
+		h = http.HandlerFunc(func(w http.ResponseWriter, r *http.Request) {
+			if c.Err.Kind == "complex" {
+				oh.WriteCplxError(nil, w, r, oh.SystemError(c.Err.Code), c.Err.Msg)
+			} else {
+				oh.WriteError(nil, w, r, c.Err.build())
+			}
+		})
+	default:
 		h = oh.Error(nil, c.Err.build())
 	}
 	target := "/api/v1/x"
@@ -429,7 +448,7 @@ var rec = ev.New(prop, "handlers-and-client",
 
 func TestHandlersAndClient(t *testing.T) {
 	ev.Rapid(t, "handlers-and-client", 3000, 1200000, func(t *rapid.T) {
-		c := Case{Success: rapid.Bool().Draw(t, "success"), Server: rapid.SampledFrom([]string{"Oryx", "srs/3", "", "X Y"}).Draw(t, "server")}
+		c := Case{Success: rapid.Bool().Draw(t, "success"), Server: rapid.SampledFrom([]string{"Oryx", "srs/3", "", "X Y"}).Draw(t, "server"), Direct: rapid.IntRange(0, 2).Draw(t, "direct") == 0}
 		if rapid.IntRange(0, 2).Draw(t, "cb") == 0 {
 			c.Callback = rapid.SampledFrom([]string{"cb", "jQuery123_456", "a.b.c", "cb%d", "f%s"}).Draw(t, "cbname")
 		}
